@@ -212,6 +212,9 @@ static void signal_def_defaults(struct jls_signal_def_s * def) {
     d = &SIGNAL_32_DEFAULTS;
     SIGNAL_DEF_DEFAULT(annotation_decimate_factor);
     SIGNAL_DEF_DEFAULT(utc_decimate_factor);
+    // an index chunk must hold several entries: with 1 every entry cascades through all 15 levels
+    def->annotation_decimate_factor = u32_max(def->annotation_decimate_factor, SUMMARY_DECIMATE_FACTOR_MIN);
+    def->utc_decimate_factor = u32_max(def->utc_decimate_factor, SUMMARY_DECIMATE_FACTOR_MIN);
 }
 
 int32_t jls_core_signal_def_align(struct jls_signal_def_s * def) {
